@@ -317,6 +317,29 @@ impl Bound {
         GraphColoredVertices::new(bdd, ctx)
     }
 
+    /// The same network on a graph whose unit set is restricted to the colours `keep`
+    /// (all vertices of those colours); the explicit semantics is restricted accordingly.
+    pub fn restrict_colours(&self, keep: &[usize]) -> Bound {
+        let mut masks = vec![0; self.cols.len()];
+        for &c in keep {
+            masks[c] = full_mask(self.n);
+        }
+        let sub = self.mk_set(&masks);
+        let graph = self.graph.restrict(&sub);
+        Bound {
+            name: format!("{}|colours{:?}", self.name, keep),
+            spec: self.spec.clone(),
+            aeon: self.aeon.clone(),
+            bn: self.bn.clone(),
+            k: self.k,
+            graph,
+            n: self.n,
+            cols: keep.iter().map(|c| self.cols[*c].clone()).collect(),
+            col_vals: keep.iter().map(|c| self.col_vals[*c].clone()).collect(),
+            invalid_valuations: self.invalid_valuations + self.cols.len() - keep.len(),
+        }
+    }
+
     pub fn colour_singleton(&self, ci: usize) -> GraphColoredVertices {
         let mut masks = vec![0; self.cols.len()];
         masks[ci] = full_mask(self.n);
